@@ -60,3 +60,63 @@ Section Handshake.
       end
     end.
 End Handshake.
+
+(* ---- the rest of the receiving side of the encryption handshake: p2p/rlpx.go
+   receiverEncHandshake = readHandshakeMsg ; handleAuthMsg.  handleAuthMsg's checks,
+   in the order of the code: the initiator id must be a curve point
+   (remoteID.Pubkey()), the static ECDH must succeed, and the signature over
+   xor(token, nonce) must recover a key.  The three are primitives (parameters):
+     id_on_curve   discover.NodeID.Pubkey succeeds
+     ecdh_ok       staticSharedSecret succeeds
+     sig_recovers  crypto.Ecrecover(xor(token, nonce), signature) succeeds
+   What is modelled is the staging: nothing of the packet is acted upon before
+   readHandshakeMsg accepted it, and an ack is only sent after all three passed. *)
+Inductive rclass := RcRead (c : hclass) | RcBadId | RcBadEcdh | RcBadSig | RcOk.
+Definition receiver_handshake (read : hclass) (id_on_curve ecdh_ok sig_recovers : bool) : rclass :=
+  match read with
+  | HPlain | HOk =>
+    if negb id_on_curve then RcBadId
+    else if negb ecdh_ok then RcBadEcdh
+    else if negb sig_recovers then RcBadSig
+    else RcOk
+  | c => RcRead c
+  end.
+
+(* ---- p2p/rlpx.go readProtocolHandshake: the first framed message of a connection.
+   protoHandshake {Version uint64; Name string; Caps []Cap{Name string; Version uint}; ListenPort uint64; ID NodeID; Rest tail},
+   decoded with Msg.Decode (stream limited to msg.Size). *)
+Definition base_protocol_max_msg_size : N := Eval compute in g_base_protocol_max_msg_size.
+Definition s_cap (b : bytes) : option (unit * bytes) :=
+  match s_list b with None => None | Some (pl, r) =>
+  match s_bytes pl with None => None | Some (_, p1) =>
+  match s_uint 64 p1 with None => None | Some (_, p2) =>
+  match p2 with [] => Some (tt, r) | _ => None end end end end.
+Fixpoint s_caps (fuel : nat) (pl : bytes) : bool :=
+  match pl with
+  | [] => true
+  | _ => match fuel with
+         | O => false
+         | S f => match s_cap pl with None => false | Some (_, r) => s_caps f r end
+         end
+  end.
+(* Some id = the body decodes, id = the 64-byte node id it carries *)
+Definition proto_body (d : bytes) : option bytes :=
+  match s_list d with None => None | Some (pl, _) =>
+  match s_uint 64 pl with None => None | Some (_, p1) =>
+  match s_bytes p1 with None => None | Some (_, p2) =>
+  match s_list p2 with None => None | Some (caps, p3) =>
+  if negb (s_caps (length caps) caps) then None else
+  match s_uint 64 p3 with None => None | Some (_, p4) =>
+  match s_arr 64 p4 with None => None | Some (id, p5) =>
+  match s_raws (length p5) p5 with None => None | Some _ => Some id end end end end end end end.
+
+Inductive pclass := PhTooBig | PhDisc | PhWrongCode | PhBadBody | PhZeroId | PhOk (id : bytes).
+(* (msg.Code, msg.Size, payload) as ReadMsg delivered it *)
+Definition read_protocol_handshake (code size : N) (payload : bytes) : pclass :=
+  if base_protocol_max_msg_size <? size then PhTooBig        (* "message too big" *)
+  else if code =? 1 then PhDisc                              (* discMsg: the reason is returned as error *)
+  else if negb (code =? 0) then PhWrongCode                  (* != handshakeMsg *)
+  else match proto_body (firstn (N.to_nat size) payload) with
+       | None => PhBadBody
+       | Some id => if forallb (fun b => b2n b =? 0) id then PhZeroId else PhOk id
+       end.
